@@ -80,13 +80,19 @@ let line l =
       let rsp = enc_process hmac sha1 blk_enc zcomp !conf m (n (int_of_string pu)) (n (int_of_string pg))
                   (n (int_of_string now)) (unhex salt) (unhex iv) in
       Printf.printf "ENC %d %s %s\n" (i rsp.er_err) (hex rsp.er_errstr) (hex rsp.er_data)
-  | ["DEC"; cred; retry; pu; pg; now; mem] ->
+  | "DEC" :: cred :: retry :: pu :: pg :: now :: mem :: rest when List.length rest <= 1 ->
+      (* DEC cred retry uid gid now members [now2]: now = the clock when the request is received, now2 = the clock at its
+         replay step (after replay_insert); without now2 the clock has not moved (the atomic dec_process) *)
       let c = unhex cred in
       let members = members_of mem in
       let is_member u g = List.mem (i u, i g) members in
       let m = { msg0 with m_data = c; m_data_len = n (List.length c); m_retry = n (int_of_string retry) } in
-      let ((rsp, rs'), k) = dec_process hmac sha1 blk_dec zdecomp !conf is_member !rs m
-                              (n (int_of_string pu)) (n (int_of_string pg)) (n (int_of_string now)) in
+      let ((rsp, rs'), k) =
+        match rest with
+        | [now2] -> dec_process2 hmac sha1 blk_dec zdecomp !conf is_member !rs m
+                      (n (int_of_string pu)) (n (int_of_string pg)) (n (int_of_string now)) (n (int_of_string now2))
+        | _ -> dec_process hmac sha1 blk_dec zdecomp !conf is_member !rs m
+                 (n (int_of_string pu)) (n (int_of_string pg)) (n (int_of_string now)) in
       rs := rs'; last_key := k;
       print_msg "DEC" rsp
   | ["DECF"; cred; pu; pg; now; mem; fl] ->
